@@ -74,3 +74,113 @@ def ascent_labels(n, step):
             current = path[-1]
         root[path] = root[root[current]]
     return root
+
+
+# ---- equivalent spellings of the algorithms above -------------------------------------------------
+# Each function below computes exactly what its namesake computes (same comparisons, same tie
+# rules); they exist because a loop nest can be restructured in ways whose equivalence needs an
+# inductive argument that the normal form cannot make.  Agreement with any spelling discharges
+# the obligation.
+def gabriel_graph_diag_first(d2):
+    # diagonal cleared once, only the pairs j > i tested, `any` for a non-zero count
+    n = d2.shape[0]
+    g = np.full((n, n), True)
+    np.fill_diagonal(g, False)
+    for i in range(n):
+        d_i = d2[i]
+        for j in range(i + 1, n):
+            if np.any(d_i + d2[j] < d_i[j]):
+                g[i, j] = g[j, i] = False
+    return g
+
+
+def gabriel_graph_rowwise(d2):
+    # all partners j >= i of one point at a time
+    n = d2.shape[0]
+    g = np.full((n, n), True)
+    for i in range(n):
+        inside = d2[i] + d2[i:] < d2[i, i:, np.newaxis]
+        blocked = inside.any(axis=1)
+        g[i, i:] &= ~blocked
+        g[i:, i] &= ~blocked
+        g[i, i] = False
+    return g
+
+
+def gabriel_graph_by_witness(d2):
+    # loop over the third point k, all pairs at once; pairs are tested with i < j only
+    n = d2.shape[0]
+    blocked = np.full((n, n), False)
+    for k in range(n):
+        to_k = d2[:, k]
+        blocked |= np.add.outer(to_k, to_k) < d2
+    blocked = np.triu(blocked, k=1)
+    g = ~(blocked | blocked.T)
+    np.fill_diagonal(g, False)
+    return g
+
+
+def qs_next_sorted_scan(idx, nearest, probs, d2, cutoff):
+    # candidates visited by increasing distance (ties by increasing index): the first one of higher
+    # weight inside the cut-off is the nearest such point
+    dists = d2[idx]
+    for j in np.argsort(dists, kind="stable"):
+        if not dists[j] < cutoff:
+            break
+        if probs[j] > probs[idx]:
+            return j
+    if probs[nearest] > probs[idx]:
+        return nearest
+    return idx
+
+
+def gs_next_frontier(idx, probs, d2, gabriel, shell):
+    # breadth-first growth of the shells: only the points reached last are expanded
+    n = len(probs)
+    neighs = np.copy(gabriel[idx])
+    frontier = np.flatnonzero(neighs)
+    for _ in range(1, shell):
+        if frontier.size == 0:
+            break
+        more = np.full(n, False)
+        for j in frontier:
+            more |= gabriel[j]
+        frontier = np.flatnonzero(more & ~neighs)
+        neighs |= more
+    nxt = idx
+    dmin = np.inf
+    for j in range(n):
+        if probs[j] > probs[idx] and d2[idx, j] < dmin and neighs[j]:
+            nxt = j
+            dmin = d2[idx, j]
+    return nxt
+
+
+def ascent_labels_carried(n, step):
+    # the same path following with the next point carried in a local
+    root = np.full(n, -1, dtype=int)
+    for i in range(n):
+        if root[i] != -1:
+            continue
+        path = [i]
+        current = i
+        while current != root[current]:
+            nxt = step(current)
+            root[current] = nxt
+            if root[nxt] != -1:
+                break
+            path.append(nxt)
+            current = nxt
+        root[path] = root[nxt]
+    return root
+
+
+def ascent_labels_pointer_jumping(n, step):
+    # successor of every point first, then roots by repeated squaring of the successor map
+    successor = np.empty(n, dtype=int)
+    for i in range(n):
+        successor[i] = step(i)
+    root = successor
+    while not np.array_equal(root[root], root):
+        root = root[root]
+    return root
